@@ -48,7 +48,7 @@ Require Import Board Move GameOver Refine RefinePlace2 Inst LegalMove LegalMoveL
 Require Mcts MctsFacts MctsFacts2 MctsFacts3 MctsFacts4 MctsFacts5 MctsFacts6 EvalTotal GameOverFacts2 PtnFileSafe.
 Require Opening OpeningFacts1 OpeningFacts2 OpeningFacts OpeningFacts3 OpeningEx AllMovesFacts5 Preserve1 Preserve5 TpsFacts5 Generated.Consts.
 Require Search SearchExact SearchInst SearchC CancelEx Reach1 Alloc EvalSpec SearchNeg2 SearchNeg5 SearchLegal2 SearchLegal3 SearchLegal4.
-Require SearchAll3 SearchAllLegal2 SearchRand SearchRand3 SearchPv2.
+Require SearchAll3 SearchAll4 SearchAllLegal2 SearchRand SearchRand3 SearchPv2 SearchPv4.
 Import ListNotations.
 
 (* (1) A live position has a legal move and AllMoves lists it.  wf: sizes 3..8, Height/Stacks of length size^2,
@@ -665,3 +665,18 @@ Theorem C04_example_pv_replays :
   length (SearchC.r_pv (snd (SearchInst.run_analyze SearchNeg5.cfg3 0 (Search.new_state 0) SearchNeg5.q4))) = 3%nat.
 Proof. exact SearchPv2.ex_pv_replays. Qed.
 Print Assumptions C04_example_pv_replays.
+
+(* ... and so does every line of AnalyzeAll (same setting; for a cancelled call as long as the flag was not seen set at the end) *)
+Theorem C04_analyze_all_lines_replay_precise : forall cfg, SearchExact.precise cfg -> SearchNeg5.builtin_eval cfg ->
+  forall k s p sk pvs v d c,
+  SearchExact.SI s -> SearchNeg2.base_ok p -> (Preserve1.total p <= 64)%N -> (move p + 16 <= EvalSpec.max_terminal_ply)%Z ->
+  SearchAll3.analyze_all_cancel Generated.Consts.gen_basis cfg k s p = (sk, (pvs, v, d, c)) -> Search.cancelled k sk = false ->
+  Forall (fun l => exists q, Reach1.replay p l = Ok q) pvs.
+Proof. exact SearchPv4.analyze_all_lines_replay_64. Qed.
+Print Assumptions C04_analyze_all_lines_replay_precise.
+
+Theorem C04_example_all_lines_replay :
+  let pvs := fst (fst (fst (snd (Search.analyze_all Generated.Consts.gen_basis SearchNeg5.cfg3w (Search.new_state 0) SearchNeg5.q4)))) in
+  map (fun l => match Reach1.replay SearchNeg5.q4 l with Ok _ => length l | _ => 0%nat end) pvs = [3%nat; 3%nat; 3%nat].
+Proof. exact SearchPv4.ex_all_lines_replay. Qed.
+Print Assumptions C04_example_all_lines_replay.
